@@ -539,3 +539,109 @@ M("c06-child-swallows-base", "C06", "R", "operation/child.py",
   "        except SuspendExecution:\n            # Don't checkpoint SuspendExecution - let it bubble up\n            raise\n        except BackgroundThreadError:\n            return None  # type: ignore\n")
 M("c06-wfc-catches-base", "C06", "R6.failure-ends-operation", "operation/wait_for_condition.py",
   "        except Exception as e:\n            # Mark as failed", "        except BaseException as e:\n            # Mark as failed")
+
+# ----------------------------------------------------------------------------- C10
+M("c10-guard-after-put", "C10", "R1.guard-before-enqueue", "state.py",
+  """                if operation_update.operation_id in self._parent_done:""", """                if False and operation_update.operation_id in self._parent_done:""")
+M("c10-mark-only-on-succeed", "C10", "R2.mark-on-succeed-and-fail", "state.py",
+  "                    in {OperationAction.SUCCEED, OperationAction.FAIL}", "                    in {OperationAction.SUCCEED}")
+M("c10-mark-outside-lock", "C10", "R1.", "state.py",
+  """                # Handle CONTEXT completion - mark descendants while holding lock
+                if (
+                    operation_update.operation_type == OperationType.CONTEXT
+                    and operation_update.action
+                    in {OperationAction.SUCCEED, OperationAction.FAIL}
+                ):
+                    self._mark_orphans(operation_update.operation_id)
+""", """            # Handle CONTEXT completion
+            if (
+                operation_update.operation_type == OperationType.CONTEXT
+                and operation_update.action
+                in {OperationAction.SUCCEED, OperationAction.FAIL}
+            ):
+                self._mark_orphans(operation_update.operation_id)
+            with self._parent_done_lock:
+""")
+M("c10-marking-not-transitive", "C10", "R2.marking-is-transitive", "state.py",
+  "            to_process.update(direct_children)\n", "            all_descendants.update(direct_children)\n")
+M("c10-mark-wrong-root", "C10", "R2.mark-on-succeed-and-fail", "state.py",
+  "                    self._mark_orphans(operation_update.operation_id)", "                    self._mark_orphans(operation_update.parent_id)")
+M("c10-done-callback-fails-orphan", "C10", "R5.orphan-handler-is-inert", "concurrency/executor.py",
+  """                exe_state.index,
+            )
+            return
+        except TimedSuspendExecution as tse:""", """                exe_state.index,
+            )
+            self.counters.fail_task()
+            return
+        except TimedSuspendExecution as tse:""")
+M("c10-child-start-after-body-skipped", "C10", "R6.first-time-operation-checks-first", "operation/wait_for_condition.py",
+  "        if not checkpointed_result.is_started():\n            start_operation", "        if checkpointed_result.is_pending():\n            start_operation")
+
+# ----------------------------------------------------------------------------- C09
+M("c09-empty-input-hangs", "C09", "R4.empty-input-terminates", "concurrency/executor.py",
+  """        if not self.executables:
+            # Nothing to run: no task would ever set the completion event (and a
+            # ThreadPoolExecutor cannot be created with zero workers).
+            self.executables_with_state = []
+            return self._create_result()
+
+""", "", desc="repaired defect re-introduced")
+M("c09-suspended-dropped-from-started", "C09", "R1.faithful-item-per-branch", "concurrency/executor.py",
+  """                    | BranchStatus.RUNNING
+                    | BranchStatus.SUSPENDED
+                    | BranchStatus.SUSPENDED_WITH_TIMEOUT""", """                    | BranchStatus.RUNNING
+                    | BranchStatus.SUSPENDED_WITH_TIMEOUT""")
+M("c09-index-off-by-one", "C09", "R1.faithful-item-per-branch", "concurrency/executor.py",
+  """                        BatchItem(
+                            executable.index,
+                            BatchItemStatus.SUCCEEDED,""", """                        BatchItem(
+                            executable.index + 1,
+                            BatchItemStatus.SUCCEEDED,""")
+M("c09-failed-reported-succeeded", "C09", "R1.faithful-item-per-branch", "concurrency/executor.py",
+  """                            executable.index,
+                            BatchItemStatus.FAILED,
+                            error=ErrorObject.from_exception(executable.error),""", """                            executable.index,
+                            BatchItemStatus.SUCCEEDED,
+                            error=ErrorObject.from_exception(executable.error),""")
+M("c09-second-unbounded-pool", "C09", "R2.", "concurrency/executor.py",
+  "        thread_executor = ThreadPoolExecutor(max_workers=max_workers)", "        thread_executor = ThreadPoolExecutor(max_workers=len(self.executables))")
+M("c09-tolerance-ge-one-side", "C09", "R3.same-threshold-atoms", "concurrency/models.py",
+  """                and self.failure_count > self.tolerated_failure_count
+            ):
+                return False""", """                and self.failure_count >= self.tolerated_failure_count
+            ):
+                return False""")
+M("c09-classifier-ignores-config", "C09", "R1.faithful-item-per-branch", "concurrency/executor.py",
+  "        return BatchResult.from_items(batch_items, self.completion_config)\n\n    def _execute_item", "        return BatchResult.from_items(batch_items)\n\n    def _execute_item")
+M("c09-order-reversed", "C09", "R1.input-order", "concurrency/executor.py",
+  "            ExecutableWithState(executable=exe) for exe in self.executables\n", "            ExecutableWithState(executable=exe) for exe in reversed(self.executables)\n")
+
+# ----------------------------------------------------------------------------- C07
+M("c07-running-does-not-veto-suspend", "C07", "R2.suspend-decision", "concurrency/executor.py",
+  "            if exe_state.status in {BranchStatus.PENDING, BranchStatus.RUNNING}:", "            if exe_state.status in {BranchStatus.PENDING}:")
+M("c07-step-catches-suspension", "C07", "R", "operation/step.py",
+  "        except Exception as e:\n            if isinstance(e, ExecutionError):", "        except (Exception, SuspendExecution) as e:\n            if isinstance(e, ExecutionError):")
+M("c07-new-unbounded-wait", "C07", "R4.blocking-call-registered", "concurrency/executor.py",
+  "        self._shutdown.set()\n        self._timer_thread.join(timeout=1.0)", "        self._shutdown.set()\n        self._timer_thread.join()")
+M("c07-wait-start-async", "C07", "R1.record-before-suspend", "operation/wait.py",
+  "            self.state.create_checkpoint(operation_update=operation, is_sync=True)",
+  "            self.state.create_checkpoint(operation_update=operation, is_sync=False)")
+M("c07-resubmit-before-reset", "C07", "R5.reset-before-resubmit", "concurrency/executor.py",
+  "                            exe_state.reset_to_pending()\n                            self.resubmit_callback(exe_state)",
+  "                            self.resubmit_callback(exe_state)\n                            exe_state.reset_to_pending()")
+M("c07-wrapper-suspend-returns-succeeded", "C07", "R3.wrapper-maps-suspension-to-pending", "execution.py",
+  """                return DurableExecutionInvocationOutput(
+                    status=InvocationStatus.PENDING
+                ).to_dict()
+
+            except CheckpointError as e:""", """                return DurableExecutionInvocationOutput(
+                    status=InvocationStatus.SUCCEEDED
+                ).to_dict()
+
+            except CheckpointError as e:""")
+M("c07-indefinite-suspension-ignored", "C07", "R2.suspend-decision", "concurrency/executor.py",
+  "        if indefinite_suspend_task:\n            return SuspendResult.suspend(", "        if False:\n            return SuspendResult.suspend(")
+M("c07-invoke-suspends-without-start", "C07", "R1.record-before-suspend", "operation/invoke.py",
+  "            self.state.create_checkpoint(operation_update=start_operation, is_sync=True)",
+  "            self.state.create_checkpoint(operation_update=start_operation, is_sync=False)")
